@@ -216,7 +216,7 @@ ADDED = {
            "the node's own just-acknowledged message ID; a ping received on a multicast address gets its Reset; a second copy of a CON request around EMPTY_ACK_DELAY (acknowledged exactly once); a multicast request given up. Exchanges with the peer's other port while a CON to its first port is open; a transport error before a duplicate.",
     "C11": "Also: every rejected forgery is followed by the genuine message on the same recipient; foreign contexts include absent vs empty ID "
            "context and another salt, for requests and responses; all 12 registered AEAD algorithms in both tiers; no nonce re-used by the Echo challenge "
-           "after a loss of replay state; response binding across a process death; the outer code depends on Observe alone. The server-side choice of the context from a credentials map (four ID contexts in every order).",
+           "after a loss of replay state; response binding across a process death; the outer code depends on Observe alone. The server-side choice of the context from a credentials map (four ID contexts in every order). The real client transport against the real site wrapper over the virtual network (Echo recovery, observation, swapped responses).",
     "C12": "Also: state lost for real - a file-backed context accepts 1-3 requests, the process dies, after reload nothing is accepted before a fresh Echo exchange; "
            "responses of the peer with its own Partial IV never move an initialised window. The last sequence number 2^40-1; recorded requests under a rewritten outer code.",
     "C15": "Also: elective options in Ping / Release / Abort and a critical option behind an elective one; a displaced connection; CSMs without options. A peer CSM announcing a small Max-Message-Size.",
